@@ -26,6 +26,9 @@ def S(topic):
     return dict(k="send", topic=topic)
 
 
+TICK = dict(k="tick")
+
+
 SCENARIOS = {
     # one connection thread delivering two messages of sender 7, one Send
     "A": dict(topics=["T"], threads={"R1": [M(1, 7, "T"), M(2, 7, "T")], "S1": [S("T")]}),
@@ -52,6 +55,11 @@ SCENARIOS = {
     "L": dict(topics=["T"], threads={"R1": [M(1, 7, "T", True), M(2, 7, "T", True), M(3, 7, "T"), M(4, 7, "T", True)], "S1": [S("T")]}),
     # three connections
     "M": dict(topics=["T"], threads={"R1": [M(1, 7, "T", True)], "R2": [M(2, 8, "T")], "R3": [M(3, 9, "T"), M(4, 9, "T")], "S1": [S("T")]}),
+    # the collector takes part (GCExpire / GCSweep = 2): the topic expires while its hand-over may still be running; a Send on
+    # another topic runs the collection
+    "N": dict(gc=True, topics=["T", "U"], threads={"R1": [M(1, 7, "T"), M(2, 7, "T")], "S1": [S("T")], "K1": [TICK, TICK, TICK, S("U")]}),
+    "O": dict(gc=True, topics=["T", "U"], threads={"R1": [M(1, 7, "T", True), M(2, 7, "T")], "S1": [S("T")], "K1": [TICK, TICK, TICK, S("U")]}),
+    "P": dict(gc=True, topics=["T", "U"], threads={"R1": [M(1, 7, "T"), M(2, 7, "T"), M(3, 7, "T")], "S1": [S("T"), TICK, TICK, TICK, S("U")]}),
 }
 
 
@@ -63,6 +71,8 @@ def prog_tla(sc):
             if op["k"] == "recv":
                 seq.append('[k |-> "recv", m |-> [id |-> %d, src |-> %d, topic |-> "%s", ack |-> %s]]' % (
                     op["id"], op["src"], op["topic"], "TRUE" if op.get("ack") else "FALSE"))
+            elif op["k"] == "tick":
+                seq.append('[k |-> "tick"]')
             else:
                 seq.append('[k |-> "send", t |-> "%s"]' % op["topic"])
         items.append('"%s" :> <<%s>>' % (name, ", ".join(seq)))
@@ -82,7 +92,7 @@ def write_mc(wd, name, sc, trace=None, invariants=()):
     lines.append("====")
     with open(os.path.join(wd, mod + ".tla"), "w") as f:
         f.write("\n".join(lines) + "\n")
-    c = ["CONSTANTS", "  Threads <- c_Threads", "  Prog <- c_Prog", "  Topics <- c_Topics"]
+    c = ["CONSTANTS", "  Threads <- c_Threads", "  Prog <- c_Prog", "  Topics <- c_Topics", "  GCOn = %s" % ("TRUE" if sc.get("gc") else "FALSE"), "  Expire = 2"]
     if trace:
         c += ["  TraceFile <- c_TraceFile", "INIT TInit", "NEXT TNext"]
     else:
@@ -192,7 +202,7 @@ def run(pid):
     wd = vlib.scratch(pid)
     rng = random.Random(vlib.seed())
     verdict = vlib.Verdict(pid)
-    capq = dict(A=20000, B=3000, C=3000, D=2000, E=3000, F=1500, G=3000, H=3000, I=2000, J=2000, K=2000, L=2000, M=2000)
+    capq = dict(A=20000, B=3000, C=3000, D=2000, E=3000, F=1500, G=3000, H=3000, I=2000, J=2000, K=2000, L=2000, M=2000, N=3000, O=3000, P=3000)
     caps = capq if tr == "quick" else {k: 40 * v for k, v in capq.items()}
     job = []
     ev = []
@@ -214,7 +224,7 @@ def run(pid):
         log("box %s: %r, %d maximal schedules, %d replayed%s" % (name, r, total, len(paths), " (all)" if allp else ""))
         ev.append(dict(scenario=name, threads=sc["threads"], distinct_states=r.distinct, edges=ne, maximal_schedules=total, replayed=len(paths),
                        all_schedules=allp))
-        job.append(dict(name=name, threads=sc["threads"], topics=sc["topics"], paths=paths))
+        job.append(dict(name=name, gc=bool(sc.get("gc")), threads=sc["threads"], topics=sc["topics"], paths=paths))
     drv = vlib.build_harness()
     jobfile = os.path.join(wd, "boxjob.json")
     with open(jobfile, "w") as f:
@@ -359,7 +369,7 @@ def replay(pid, path):
     wd = vlib.scratch(pid + "r")
     sc = SCENARIOS[o["scenario"]]
     drv = vlib.build_harness()
-    rc, out, err = vlib.run_driver(drv, ["box"], stdin_obj=dict(scenarios=[dict(name=o["scenario"], threads=sc["threads"], topics=sc["topics"],
+    rc, out, err = vlib.run_driver(drv, ["box"], stdin_obj=dict(scenarios=[dict(name=o["scenario"], gc=bool(sc.get("gc")), threads=sc["threads"], topics=sc["topics"],
                                                                      paths=[o["schedule"]])], workers=1))
     print(out)
     return 0
